@@ -235,7 +235,13 @@ class ResourceMap:
         # discriminated between handles and maps.
         for subkey in keys[:-1]:
             target_map.handles.pop(subkey, None)    # Overwrite duplicates
-            target_map = target_map.maps.setdefault(subkey, ResourceMap())
+            if subkey not in target_map.maps:
+                # Missing intermediate map, keep track of its container
+                new_map = ResourceMap()
+                new_map.parent = target_map
+                new_map.key = subkey
+                target_map.maps[subkey] = new_map
+            target_map = target_map.maps[subkey]
 
         # For better performance, only one type check is done at this
         # point.
